@@ -738,6 +738,16 @@ class Describer:
             if r and r[0] == "func":
                 fn = r[1]
                 params = [a.arg for a in fn.args.args]
+                # predicate functions: canonical disjunctive normal form over their return paths (insensitive to
+                # guard clauses / merged conditions / temporaries)
+                if params and not fn.args.defaults:
+                    try:
+                        from ..rules.sem import dnf_of_paths, dnf_text
+                        d = dnf_of_paths(self.ctx, fn, this_names=(params[0],))
+                        if d:
+                            return "dnf[" + dnf_text(d) + "]"
+                    except AnalysisError:
+                        pass
                 fake = ast.Call(func=node, args=[ast.Name(id="this", ctx=ast.Load())], keywords=[])
                 ev = Evaluator(const_of=const_of, func_of=func_of, this_names=("this",))
                 t = inline_call(fn, fake, ev, lambda env: Evaluator(env=env, const_of=self.folder.const_of(r[2]), func_of=None, this_names=("this",)))
